@@ -23,7 +23,29 @@ ARCH = {
     'terrapin': dict(kex=['curve25519-sha256'], key=['ssh-ed25519'], enc=['chacha20-poly1305@openssh.com', 'aes128-cbc'], mac=['hmac-sha2-256-etm@openssh.com']),
     'clean': dict(kex=['curve25519-sha256', MS], key=['ssh-ed25519'], enc=['chacha20-poly1305@openssh.com', 'aes128-cbc'], mac=['hmac-sha2-256-etm@openssh.com']),
     'plain': dict(kex=['curve25519-sha256'], key=['ssh-ed25519'], enc=['aes128-ctr'], mac=['hmac-sha2-256']),
+    # size channels: the host-key probe / group-exchange probe of these targets is answered (well-formed replies), so the scan writes size notes into its table
+    'rsa1024': dict(kex=['curve25519-sha256'], key=['ssh-rsa'], enc=['aes128-ctr'], mac=['hmac-sha2-256'], rsa_bits=1024),
+    'rsa4096': dict(kex=['curve25519-sha256'], key=['ssh-rsa'], enc=['aes128-ctr'], mac=['hmac-sha2-256'], rsa_bits=4096),
+    'gex1024': dict(kex=['curve25519-sha256', G256], key=['ssh-ed25519'], enc=['aes128-ctr'], mac=['hmac-sha2-256'], gex_bits=1024),
+    'gex4096': dict(kex=['curve25519-sha256', G256], key=['ssh-ed25519'], enc=['aes128-ctr'], mac=['hmac-sha2-256'], gex_bits=4096),
 }
+
+
+def probe_conns(a, pk):
+    """scripted connections after the first one: host-key probes (one per advertised probed type), then group-exchange probes"""
+    S = AE.sshstr
+    conns = []
+    if a.get('rsa_bits'):
+        n = b'\x00' + b'\x80' + b'\x00' * (a['rsa_bits'] // 8 - 2) + b'\x01'
+        blob = S(b'ssh-rsa') + S(b'\x01\x00\x01') + S(n)
+        conns.append(AE.Conn([BANNER, pk, AE.frame(bytes([31]) + S(blob) + S(b'\x05' * 32) + S(b'sig'))]))
+    else:
+        conns.append(AE.Conn([BANNER, pk], 'close'))          # the ssh-ed25519 probe is not answered
+    if a.get('gex_bits'):
+        pb = b'\x00' + b'\x80' + b'\x00' * (a['gex_bits'] // 8 - 2) + b'\x01'
+        for _ in range(9):
+            conns.append(AE.Conn([BANNER, pk, AE.frame(bytes([31]) + S(pb) + S(b'\x02')), AE.frame(bytes([33]) + S(b'hostkey') + S(b'\x05') + S(b'sig'))]))
+    return conns
 
 
 class RecDict(dict):
@@ -190,7 +212,7 @@ class WorkerStep(Harness):
         a = dict(ARCH[arch])
         a['enc'] = list(a['enc']) + [unk]
         pk = AE.frame(AE.kexinit_payload(a['kex'], a['key'], a['enc'], a['mac']))
-        net = AE.FakeNet([AE.Conn([BANNER, pk])], default_end='close')
+        net = AE.FakeNet([AE.Conn([BANNER, pk])] + (probe_conns(a, pk) if ('rsa_bits' in a or 'gex_bits' in a) else []), default_end='close')
         aconf = M.auditconf.AuditConf('', 22)
         aconf.json = self.json
         aconf.skip_rate_test = True
@@ -208,7 +230,14 @@ class WorkerStep(Harness):
             view = {c: [(e['algorithm'], e['notes']) for e in doc[c]] for c in OL.CATS}
             view['rec'] = doc['recommendations']
             view['notes'] = doc['additional_notes']
-        return (ret, text if not self.json else None, view)
+        bits = a.get('rsa_bits') or a.get('gex_bits')
+        seen = True
+        if bits:      # reachability witness: the probe was answered and the measured size is in the report
+            if doc is not None:
+                seen = any(e.get('keysize') == bits for e in list(doc['kex']) + list(doc['key']))
+            else:
+                seen = (('(%d-bit)' % bits) in text) if isinstance(text, str) else bool(text.find('(%d-bit)' % bits) >= 0)
+        return (ret, text if not self.json else None, view, seen)
 
     def run(self, M, inp):
         if zx.active():
@@ -234,6 +263,7 @@ class WorkerStep(Harness):
         else:
             yield 'same-report-as-single-target-run', a[1] == b[1]
         yield 'no-table-left-for-the-finished-task', not obs['table_left_behind']
+        yield 'measured-size-is-in-the-report(probe-reached)', a[3] and b[3]
 
     def classify(self, inp, obs, label):
         if label in ('same-report-as-single-target-run', 'same-json-as-single-target-run', 'same-status-as-single-target-run', 'no-table-left-for-the-finished-task'):
@@ -304,6 +334,16 @@ def tasks(tier):
         for second in ('terrapin', 'clean', 'plain'):
             for json in (False, True):
                 T.append(WorkerStep(first, second, json))
+    for first, second in [('rsa1024', 'rsa4096'), ('rsa4096', 'rsa1024'), ('gex1024', 'gex4096'), ('gex4096', 'gex1024'), ('rsa1024', 'gex1024'), ('gex1024', 'plain')]:
+        for json in (False, True):
+            T.append(WorkerStep(first, second, json))
+    if tier != 'quick':
+        sizes = ['rsa1024', 'rsa4096', 'gex1024', 'gex4096']
+        for first in sizes + ['terrapin']:
+            for second in sizes + ['clean']:
+                if (first, second) not in [('rsa1024', 'rsa4096'), ('rsa4096', 'rsa1024'), ('gex1024', 'gex4096'), ('gex4096', 'gex1024'), ('rsa1024', 'gex1024')]:
+                    T.append(WorkerStep(first, second, True))
+                    T.append(WorkerStep(first, second, False))
     T.append(ConfigIsolation())
     for shape in [('host:port', 'host'), ('host', 'host:port'), ('host:port', 'host:port', 'host'), ('host:port', 'blank', 'host', 'host')]:
         for with_p in (False, True):
